@@ -87,9 +87,31 @@ impl SignedEntityStorer for GatedSignedEntityStorer {
 pub struct AggSettings {
     pub protocol_parameters: ProtocolParameters,
     pub entity_types: Vec<SignedEntityTypeDiscriminants>,
+    /// false only in counterfactual re-runs that attribute a violation to the known finding
+    /// `C16-dmq-dedup-ignores-sender`: the consumer then reads the DMQ node without the
+    /// repository's deduplicating client
+    pub dmq_dedup: bool,
+}
+
+/// The message-queue side of the aggregator: what the (simulated) DMQ node hands over when the
+/// consumer asks. Everything behind it is the repository's: the deduplicating consumer client,
+/// the DMQ signature consumer, the sequential signature processor, the certifier.
+#[derive(Default)]
+pub struct SimDmqNode {
+    queue: std::sync::Mutex<Vec<(mithril_common::messages::RegisterSignatureMessageDmq, String)>>,
+}
+
+#[async_trait]
+impl mithril_dmq::DmqConsumerClient<mithril_common::messages::RegisterSignatureMessageDmq> for SimDmqNode {
+    async fn consume_messages(&self) -> StdResult<Vec<(mithril_common::messages::RegisterSignatureMessageDmq, String)>> {
+        Ok(std::mem::take(&mut *self.queue.lock().unwrap()))
+    }
 }
 
 pub struct AggInner {
+    pub dmq_node: Arc<SimDmqNode>,
+    pub signature_processor: Arc<dyn mithril_aggregator::services::SignatureProcessor>,
+    _stop_tx: tokio::sync::watch::Sender<()>,
     pub runtime: AggregatorRuntime,
     pub deps: ServeCommandDependenciesContainer,
     pub routes: BoxedFilter<(warp::reply::Response,)>,
@@ -164,6 +186,7 @@ impl AggregatorNode {
         self.rt = new_runtime();
         let configuration = self.configuration();
         let view = self.view.clone();
+        let dmq_dedup = self.settings.dmq_dedup;
         let inner = self.rt.block_on(async move {
             let snapshotter =
                 Arc::new(FakeSnapshotter::new(configuration.get_snapshot_dir()?.join("fake_snapshots")));
@@ -192,7 +215,27 @@ impl AggregatorNode {
                 .map(|reply| warp::reply::Reply::into_response(reply))
                 .boxed();
             let open_message_repository = b.get_open_message_repository().await?;
-            anyhow::Ok(AggInner { runtime, deps, routes, open_message_repository, gate, _builder: b })
+            // message-queue ingress, wired as `create_signature_processor` wires it, over the
+            // simulated DMQ node
+            let dmq_node = Arc::new(SimDmqNode::default());
+            let deduplicator: Arc<dyn mithril_dmq::DmqConsumerClient<mithril_common::messages::RegisterSignatureMessageDmq>> = if dmq_dedup {
+                Arc::new(mithril_dmq::DmqConsumerClientDeduplicator::new_with_default_ttl(
+                    dmq_node.clone(),
+                    Arc::new(mithril_dmq::SystemUnixTimestampProvider),
+                ))
+            } else {
+                dmq_node.clone()
+            };
+            let (stop_tx, stop_rx) = tokio::sync::watch::channel(());
+            let signature_processor = Arc::new(mithril_aggregator::services::SequentialSignatureProcessor::new(
+                Arc::new(mithril_aggregator::services::SignatureConsumerDmq::new(deduplicator)),
+                deps.certifier_service.clone(),
+                stop_rx,
+                b.get_metrics_service().await?,
+                std::time::Duration::from_millis(10),
+                logger(),
+            ));
+            anyhow::Ok(AggInner { dmq_node, signature_processor, _stop_tx: stop_tx, runtime, deps, routes, open_message_repository, gate, _builder: b })
         })?;
         self.inner = Some(inner);
         self.restarts += 1;
@@ -255,6 +298,21 @@ impl AggregatorNode {
         }
         let _ = gate.gate.send_replace(false);
         done
+    }
+
+    /// The DMQ node hands one message (payload + the pool id of its authenticated envelope) to the
+    /// aggregator's consumer, and the signature processor runs one round.
+    pub fn dmq_deliver(&mut self, message: mithril_common::messages::RegisterSignatureMessageDmq, party_id: String) -> Option<String> {
+        let inner = self.inner.as_ref().expect("aggregator is down");
+        inner.dmq_node.queue.lock().unwrap().push((message, party_id));
+        let processor = inner.signature_processor.clone();
+        let rt = &self.rt;
+        let res = std::panic::catch_unwind(std::panic::AssertUnwindSafe(|| rt.block_on(async move { processor.process_signatures().await })));
+        match res {
+            Ok(Ok(())) => None,
+            Ok(Err(e)) => Some(format!("{e:#}")),
+            Err(_) => Some("PANIC in the signature processor".into()),
+        }
     }
 
     /// In-process HTTP request against the real route filter.
